@@ -25,7 +25,7 @@ const LOOK: [u32; 4] = [0, 8, 16, 0xE852_50D6];
 /// Content seeds from REAL_BASE on select realistic contents (values as real kernels put them into their headers):
 /// code % 2 = flag, code / 2 = variant.
 const REAL_BASE: usize = 1 << 25;
-const REAL_VARIANTS: [usize; NSLOTS] = [4, 3, 2, 2, 4, 1, 1, 2, 2, 3];
+const REAL_VARIANTS: [usize; NSLOTS] = [4, 3, 2, 2, 4, 1, 1, 2, 2, 4];
 
 fn call(b: Builder, m: &mut Vec<Option<Vec<u8>>>, slot: usize, c: usize) -> Builder {
     if c >= REAL_BASE {
@@ -73,7 +73,8 @@ fn call(b: Builder, m: &mut Vec<Option<Vec<u8>>>, slot: usize, c: usize) -> Buil
                 b.efi_64_tag(t)
             }
             9 => {
-                let r = [(0x10_0000u32, 0xFFFF_FFFFu32, 4096u32, RelocatableHeaderTagPreference::None), (0x20_0000, 0x3FFF_FFFF, 0x20_0000, RelocatableHeaderTagPreference::High), (0, 0x10_0000, 4096, RelocatableHeaderTagPreference::Low)][v].clone();
+                // (the last one: exactly the load range the first realistic address tag declares)
+                let r = [(0x10_0000u32, 0xFFFF_FFFFu32, 4096u32, RelocatableHeaderTagPreference::None), (0x20_0000, 0x3FFF_FFFF, 0x20_0000, RelocatableHeaderTagPreference::High), (0, 0x10_0000, 4096, RelocatableHeaderTagPreference::Low), (0x10_0000, 0x20_0000, 4096, RelocatableHeaderTagPreference::None)][v].clone();
                 let t = RelocatableHeaderTag::new(fl, r.0, r.1, r.2, r.3);
                 m[slot] = Some(supplied(&t));
                 b.relocatable_tag(t)
@@ -388,6 +389,35 @@ fn run(ctx: &mut Ctx) {
                                 ctx.nontrivial();
                                 run_program(ctx, arch, &prog, &|| format!("realistic pair {:?} arch {}", prog.iter().map(|p| (SLOT_NAMES[p.0], p.1 - REAL_BASE)).collect::<Vec<_>>(), arch));
                             });
+                        }
+                    }
+                }
+            }
+        }
+    }
+    // realistic contents, three tags at a time (the slots that carry addresses or modes: address, entry, console,
+    // framebuffer, the two EFI entries, relocatable)
+    ctx.bound("realistic_triples", "every triple of the slots {address, entry, console, framebuffer, EFI32 entry, EFI64 entry, relocatable} x every combination of their realistic contents x all 8 flag combinations, architecture i386 (MIPS32 for every fourth)");
+    {
+        let slots = [1usize, 2, 3, 4, 7, 8, 9];
+        let mut n = 0usize;
+        for i in 0..slots.len() {
+            for j in i + 1..slots.len() {
+                for k in j + 1..slots.len() {
+                    let (a, b2, c) = (slots[i], slots[j], slots[k]);
+                    for ca in 0..2 * REAL_VARIANTS[a] {
+                        for cb in 0..2 * REAL_VARIANTS[b2] {
+                            for cc in 0..2 * REAL_VARIANTS[c] {
+                                n += 1;
+                                let arch = if n % 4 == 0 { 4 } else { 0 };
+                                let prog = vec![(a, REAL_BASE + ca), (b2, REAL_BASE + cb), (c, REAL_BASE + cc)];
+                                let describe = || J::obj().set("part", "realistic_triples").set("calls", J::Arr(prog.iter().map(|p| J::from(format!("{}#{}", SLOT_NAMES[p.0], p.1 - REAL_BASE))).collect())).set("architecture", arch);
+                                ctx.leaf(describe, |ctx| {
+                                    ctx.state_direct();
+                                    ctx.nontrivial();
+                                    run_program(ctx, arch, &prog, &|| format!("realistic triple {:?} arch {}", prog.iter().map(|p| (SLOT_NAMES[p.0], p.1 - REAL_BASE)).collect::<Vec<_>>(), arch));
+                                });
+                            }
                         }
                     }
                 }
